@@ -1,4 +1,5 @@
 import NjectProofs.ReorderProofs
+import NjectProofs.ReorderTerm
 /-
   C17, second sentence, about the algorithm itself: reorder.go (as transcribed in
   `Nject/ReorderAlg.lean` and compared with the implementation's S4 dump on every run) returns a
@@ -87,6 +88,16 @@ theorem C17_given_up_are_listed_last {ti funcs hasInit r} (h : reorderIdx ti fun
   split at h
   · cases h
   · cases h; exact ⟨_, rfl⟩
+
+/-- **C17 (algorithm)**: `topo.run` ends -- the transcription never uses up the fuel it is given, for
+    every list of providers (the measure: queue entries plus the pushes the unprocessed nodes can
+    still cause) -/
+theorem C17_reorder_always_ends (ti : TyInfo) (funcs : List CP) (hasInit : Bool) :
+    (reorderModel ti funcs hasInit).2.2 = false := by
+  unfold reorderModel
+  cases h : reorderIdx ti funcs hasInit with
+  | none => rfl
+  | some r => exact reorderIdx_terminates h
 
 /-! ### non-vacuity: a chain on which reorder really moves a provider -/
 
